@@ -222,18 +222,29 @@ def check_tables(run):
         if not ok:
             run.violation("max-segments-encoding-not-rounded-down", {"capability": x, "code": c})
     # max apdu length accepted
+    reserved_outcomes = {}
     for c in range(16):
         run.case(("dma", c))
         try:
             v = A.decode_max_apdu_length_accepted(c)
-        except Exception:
+        except Exception as err:
             v = "error"
+            if c not in W.MAX_APDU:
+                reserved_outcomes[c] = type(err).__name__
+        else:
+            if c not in W.MAX_APDU:
+                reserved_outcomes[c] = "value"
         run.count("table_points")
         if c in W.MAX_APDU:
             if v != W.MAX_APDU[c]:
                 run.violation("max-apdu-table-differs", {"code": c, "got": v, "want": W.MAX_APDU[c]})
         elif v not in ("error", None):
             run.violation("reserved-max-apdu-code-given-a-length", {"code": c, "got": v})
+    # the table is total over the sixteen code points: every reserved code is refused the same way (the transaction layer
+    # answers the refusal it knows with an abort; a different exception for one code point escapes it)
+    if len(set(reserved_outcomes.values())) > 1:
+        odd = [c for c, o in reserved_outcomes.items() if list(reserved_outcomes.values()).count(o) == 1]
+        run.violation("reserved-max-apdu-codes-not-refused-alike", {"outcomes": {str(c): o for c, o in sorted(reserved_outcomes.items())}, "odd_one": odd[:1]})
     for x in range(0, 2001):
         run.case(("ema", x))
         try:
